@@ -102,6 +102,79 @@ func (o *Optimizer) OptimizeExpression(expr ast.Expr) ast.Expr {
 	}
 }
 
+// forgetDependents drops what is known through a variable that is about to
+// change: copies of it and remembered expressions that mention it or are held
+// by it. Without this, `y = x; x = x + 1; > y` would return the new x.
+func (o *Optimizer) forgetDependents(name string) {
+	for target, source := range o.copies {
+		if source == name {
+			delete(o.copies, target)
+		}
+	}
+	mention := "var:" + name
+	for key, holder := range o.expressions {
+		if holder == name || keyMentions(key, mention) {
+			delete(o.expressions, key)
+		}
+	}
+}
+
+// keyMentions reports whether an expression key (see exprKey) refers to the
+// variable whose rendering is mention ("var:<name>").
+func keyMentions(key, mention string) bool {
+	for i := 0; i+len(mention) <= len(key); i++ {
+		if key[i:i+len(mention)] != mention {
+			continue
+		}
+		end := i + len(mention)
+		if end == len(key) || key[end] == ' ' || key[end] == ')' {
+			return true
+		}
+	}
+	return false
+}
+
+// forget drops everything known about a variable and through it.
+func (o *Optimizer) forget(name string) {
+	delete(o.constants, name)
+	delete(o.copies, name)
+	o.forgetDependents(name)
+}
+
+// optimizerFacts is a snapshot of what the optimizer knows at a program point.
+type optimizerFacts struct {
+	constants   map[string]ast.Literal
+	expressions map[string]string
+	copies      map[string]string
+}
+
+func (o *Optimizer) saveFacts() optimizerFacts {
+	f := optimizerFacts{
+		constants:   make(map[string]ast.Literal, len(o.constants)),
+		expressions: make(map[string]string, len(o.expressions)),
+		copies:      make(map[string]string, len(o.copies)),
+	}
+	for k, v := range o.constants {
+		f.constants[k] = v
+	}
+	for k, v := range o.expressions {
+		f.expressions[k] = v
+	}
+	for k, v := range o.copies {
+		f.copies[k] = v
+	}
+	return f
+}
+
+func (f optimizerFacts) clone() optimizerFacts {
+	o := &Optimizer{constants: f.constants, expressions: f.expressions, copies: f.copies}
+	return o.saveFacts()
+}
+
+func (o *Optimizer) restoreFacts(f optimizerFacts) {
+	o.constants, o.expressions, o.copies = f.constants, f.expressions, f.copies
+}
+
 // OptimizeStatements optimizes a list of statements
 func (o *Optimizer) OptimizeStatements(stmts []ast.Statement) []ast.Statement {
 	if o.level == OptNone {
@@ -121,6 +194,9 @@ func (o *Optimizer) OptimizeStatements(stmts []ast.Statement) []ast.Statement {
 		case *ast.AssignStatement:
 			// Optimize the value expression
 			optimizedValue := o.OptimizeExpression(s.Value)
+			// The target changes here: nothing that was known through its old
+			// value holds any longer.
+			o.forgetDependents(s.Target)
 
 			// Copy propagation: track variable-to-variable assignments
 			if varExpr, ok := optimizedValue.(*ast.VariableExpr); ok {
@@ -143,7 +219,9 @@ func (o *Optimizer) OptimizeStatements(stmts []ast.Statement) []ast.Statement {
 							o.copies[s.Target] = existingVar
 						} else {
 							// Track this expression
-							o.expressions[key] = s.Target
+							if !keyMentions(key, "var:"+s.Target) {
+								o.expressions[key] = s.Target
+							}
 						}
 					}
 				}
@@ -166,6 +244,9 @@ func (o *Optimizer) OptimizeStatements(stmts []ast.Statement) []ast.Statement {
 		case *ast.ReassignStatement:
 			// Optimize the value expression (same logic as AssignStatement)
 			optimizedValue := o.OptimizeExpression(s.Value)
+			// The target changes here: nothing that was known through its old
+			// value holds any longer.
+			o.forgetDependents(s.Target)
 
 			// Copy propagation: track variable-to-variable assignments
 			if varExpr, ok := optimizedValue.(*ast.VariableExpr); ok {
@@ -188,7 +269,9 @@ func (o *Optimizer) OptimizeStatements(stmts []ast.Statement) []ast.Statement {
 							o.copies[s.Target] = existingVar
 						} else {
 							// Track this expression
-							o.expressions[key] = s.Target
+							if !keyMentions(key, "var:"+s.Target) {
+								o.expressions[key] = s.Target
+							}
 						}
 					}
 				}
@@ -211,6 +294,9 @@ func (o *Optimizer) OptimizeStatements(stmts []ast.Statement) []ast.Statement {
 		case ast.ReassignStatement:
 			// Same as *ast.ReassignStatement
 			optimizedValue := o.OptimizeExpression(s.Value)
+			// The target changes here: nothing that was known through its old
+			// value holds any longer.
+			o.forgetDependents(s.Target)
 
 			if varExpr, ok := optimizedValue.(*ast.VariableExpr); ok {
 				o.copies[s.Target] = varExpr.Name
@@ -225,7 +311,9 @@ func (o *Optimizer) OptimizeStatements(stmts []ast.Statement) []ast.Statement {
 							optimizedValue = &ast.VariableExpr{Name: existingVar}
 							o.copies[s.Target] = existingVar
 						} else {
-							o.expressions[key] = s.Target
+							if !keyMentions(key, "var:"+s.Target) {
+								o.expressions[key] = s.Target
+							}
 						}
 					}
 				}
@@ -269,11 +357,25 @@ func (o *Optimizer) OptimizeStatements(stmts []ast.Statement) []ast.Statement {
 				}
 			}
 
-			// Not a constant condition - optimize both branches
+			// Not a constant condition - optimize both branches, each from what
+			// is known in front of the statement. Behind it only what holds on
+			// both ways through is known: everything either branch assigns is
+			// forgotten.
+			before := o.saveFacts()
+			thenBlock := o.OptimizeStatements(s.ThenBlock)
+			o.restoreFacts(before.clone())
+			elseBlock := o.OptimizeStatements(s.ElseBlock)
+			o.restoreFacts(before)
+			for varName := range getModifiedVariables(s.ThenBlock) {
+				o.forget(varName)
+			}
+			for varName := range getModifiedVariables(s.ElseBlock) {
+				o.forget(varName)
+			}
 			optimized := &ast.IfStatement{
 				Condition: condition,
-				ThenBlock: o.OptimizeStatements(s.ThenBlock),
-				ElseBlock: o.OptimizeStatements(s.ElseBlock),
+				ThenBlock: thenBlock,
+				ElseBlock: elseBlock,
 			}
 			result = append(result, optimized)
 
@@ -282,9 +384,7 @@ func (o *Optimizer) OptimizeStatements(stmts []ast.Statement) []ast.Statement {
 			// because the loop may execute multiple times or not at all
 			modifiedVars := getModifiedVariables(s.Body)
 			for varName := range modifiedVars {
-				delete(o.constants, varName)
-				delete(o.copies, varName)
-				delete(o.expressions, varName)
+				o.forget(varName)
 			}
 
 			// Loop invariant code motion (OptAggressive only)
@@ -325,23 +425,24 @@ func (o *Optimizer) OptimizeStatements(stmts []ast.Statement) []ast.Statement {
 				Body:      o.OptimizeStatements(loopBody),
 			}
 			result = append(result, optimized)
+			// The body may have run any number of times, or not at all: what it
+			// established about the variables it assigns does not hold behind it.
+			for varName := range modifiedVars {
+				o.forget(varName)
+			}
 
 		case *ast.ForStatement:
 			// Invalidate constants for any variables modified in the for loop body
 			// because the loop may execute multiple times or not at all
 			modifiedVars := getModifiedVariables(s.Body)
 			for varName := range modifiedVars {
-				delete(o.constants, varName)
-				delete(o.copies, varName)
-				delete(o.expressions, varName)
+				o.forget(varName)
 			}
 			// Also invalidate the loop variables themselves
 			if s.KeyVar != "" {
-				delete(o.constants, s.KeyVar)
-				delete(o.copies, s.KeyVar)
+				o.forget(s.KeyVar)
 			}
-			delete(o.constants, s.ValueVar)
-			delete(o.copies, s.ValueVar)
+			o.forget(s.ValueVar)
 			// Add the for statement unchanged (could optimize body in future)
 			result = append(result, s)
 
@@ -349,16 +450,12 @@ func (o *Optimizer) OptimizeStatements(stmts []ast.Statement) []ast.Statement {
 			// Same as *ast.ForStatement
 			modifiedVars := getModifiedVariables(s.Body)
 			for varName := range modifiedVars {
-				delete(o.constants, varName)
-				delete(o.copies, varName)
-				delete(o.expressions, varName)
+				o.forget(varName)
 			}
 			if s.KeyVar != "" {
-				delete(o.constants, s.KeyVar)
-				delete(o.copies, s.KeyVar)
+				o.forget(s.KeyVar)
 			}
-			delete(o.constants, s.ValueVar)
-			delete(o.copies, s.ValueVar)
+			o.forget(s.ValueVar)
 			result = append(result, &s)
 
 		case *ast.SwitchStatement:
@@ -367,18 +464,14 @@ func (o *Optimizer) OptimizeStatements(stmts []ast.Statement) []ast.Statement {
 			for _, switchCase := range s.Cases {
 				modifiedVars := getModifiedVariables(switchCase.Body)
 				for varName := range modifiedVars {
-					delete(o.constants, varName)
-					delete(o.copies, varName)
-					delete(o.expressions, varName)
+					o.forget(varName)
 				}
 			}
 			// Also invalidate variables modified in the default case
 			if len(s.Default) > 0 {
 				modifiedVars := getModifiedVariables(s.Default)
 				for varName := range modifiedVars {
-					delete(o.constants, varName)
-					delete(o.copies, varName)
-					delete(o.expressions, varName)
+					o.forget(varName)
 				}
 			}
 			result = append(result, s)
@@ -388,17 +481,13 @@ func (o *Optimizer) OptimizeStatements(stmts []ast.Statement) []ast.Statement {
 			for _, switchCase := range s.Cases {
 				modifiedVars := getModifiedVariables(switchCase.Body)
 				for varName := range modifiedVars {
-					delete(o.constants, varName)
-					delete(o.copies, varName)
-					delete(o.expressions, varName)
+					o.forget(varName)
 				}
 			}
 			if len(s.Default) > 0 {
 				modifiedVars := getModifiedVariables(s.Default)
 				for varName := range modifiedVars {
-					delete(o.constants, varName)
-					delete(o.copies, varName)
-					delete(o.expressions, varName)
+					o.forget(varName)
 				}
 			}
 			result = append(result, &s)
@@ -830,10 +919,25 @@ func getModifiedVariablesInStmt(stmt ast.Statement, modified map[string]bool) {
 		for _, elseStmt := range s.ElseBlock {
 			getModifiedVariablesInStmt(elseStmt, modified)
 		}
+	case ast.IfStatement:
+		getModifiedVariablesInStmt(&s, modified)
 	case *ast.WhileStatement:
 		for _, bodyStmt := range s.Body {
 			getModifiedVariablesInStmt(bodyStmt, modified)
 		}
+	case ast.WhileStatement:
+		getModifiedVariablesInStmt(&s, modified)
+	case *ast.SwitchStatement:
+		for _, switchCase := range s.Cases {
+			for _, bodyStmt := range switchCase.Body {
+				getModifiedVariablesInStmt(bodyStmt, modified)
+			}
+		}
+		for _, bodyStmt := range s.Default {
+			getModifiedVariablesInStmt(bodyStmt, modified)
+		}
+	case ast.SwitchStatement:
+		getModifiedVariablesInStmt(&s, modified)
 	case *ast.ForStatement:
 		// Mark loop variables as modified
 		modified[s.ValueVar] = true
